@@ -196,11 +196,12 @@ def ctx_ok(fn):
 
 @C.spec([('d', 'Obj')], 'Bool')
 def hlsafe(d):
-    """no group of d has a literal hard line in its flat rendering"""
+    """no group and no fill item of d has a literal hard line in its flat rendering, and no fill item puts an
+    always_break next to flat content (the carved shapes of C04)"""
     if isinstance(d, Concat):
         return hlsafe_list(d.docs)
     if isinstance(d, Fill):
-        return hlsafe_list(d.docs)
+        return hlsafe_list(d.docs) and nohl_list(d.docs) and itemsok(d.docs)
     if isinstance(d, Nest):
         return hlsafe(d.doc)
     if isinstance(d, AlwaysBreak):
@@ -230,12 +231,62 @@ def hlsafe_stack(stack):
     return hlsafe(stack[-1][2]) and hlsafe_stack(stack[:-1])
 
 
+# -- always_break next to flat content ---------------------------------------------------------------
+@C.spec([('d', 'Obj')], 'Bool')
+def reach_ab(d):
+    """an always_break is reachable when d is traversed in flat mode (contextual documents are opaque)"""
+    if isinstance(d, AlwaysBreak):
+        return True
+    if isinstance(d, Concat):
+        return reach_ab_list(d.docs)
+    if isinstance(d, Fill):
+        return reach_ab_list(d.docs)
+    if isinstance(d, Nest):
+        return reach_ab(d.doc)
+    if isinstance(d, Group):
+        return reach_ab(d.doc)
+    if isinstance(d, Annotated):
+        return reach_ab(d.doc)
+    if isinstance(d, FlatChoice):
+        return reach_ab(d._when_flat)
+    return False
+
+
+@C.spec([('ds', 'ObjList')], 'Bool')
+def reach_ab_list(ds):
+    if not ds:
+        return False
+    return reach_ab(ds[0]) or reach_ab_list(ds[1:])
+
+
+@C.spec([('m', 'Mode'), ('d', 'Obj')], 'Bool')
+def flatok(m, d):
+    """rendering d in mode m never shows the flat alternative of a choice next to an always_break:
+    normalisation (which hoists always_break over its siblings) does not change such a rendering"""
+    return m is BREAK_MODE or isinstance(d, AlwaysBreak) or not reach_ab(d)
+
+
+@C.spec([('ds', 'ObjList')], 'Bool')
+def itemsok(ds):
+    if not ds:
+        return True
+    return (isinstance(ds[0], AlwaysBreak) or not reach_ab(ds[0])) and itemsok(ds[1:])
+
+
+@C.spec([('stack', 'Stack')], 'Bool')
+def flatok_stack(stack):
+    if not stack:
+        return True
+    return flatok(stack[-1][1], stack[-1][2]) and flatok_stack(stack[:-1])
+
+
 # ------------------------------------------------------------------------------------------------
 # lemmas
 
 @C.lemma([('fn', 'CtxFn'), ('a', 'Int'), ('b', 'Int'), ('c', 'Int'), ('d', 'Int')],
          requires=['ctx_ok(fn)'],
-         ensures=['hlsafe(apply_ctx(fn, a, b, c, d))', 'nohl(apply_ctx(fn, a, b, c, d))'],
+         ensures=['hlsafe(apply_ctx(fn, a, b, c, d))', 'nohl(apply_ctx(fn, a, b, c, d))',
+                  'flatok(FLAT_MODE, apply_ctx(fn, a, b, c, d))'],
          triggers=['apply_ctx(fn, a, b, c, d)'], trusted=True,
          note='definition of ctx_ok: a premise about user contextual functions (align/hang of hlsafe documents satisfy it)')
 def lemma_ctx_ok(fn, a, b, c, d):
@@ -408,6 +459,45 @@ def lemma_fill_ab_fails(mw, smart, mnl, i, ds, w):
         lemma_fill_ab_fails(mw, smart, mnl, i, ds[1:], walk(mw, smart, mnl, i, FLAT_MODE, ds[0], w).w)
 
 
+@C.lemma(_WQ + [('d', 'Obj'), ('w', 'Int')],
+         ensures=['implies(walk(mw, smart, mnl, i, FLAT_MODE, d, w).status is GO, not reach_ab(d))'],
+         triggers=['walk(mw, smart, mnl, i, FLAT_MODE, d, w)'], decreases=['rank(d)'], group='goab')
+def lemma_go_abfree(mw, smart, mnl, i, d, w):
+    """a flat walk that runs through a whole document met no always_break"""
+    if isinstance(d, Concat):
+        lemma_go_abfree_list(mw, smart, mnl, i, d.docs, w)
+    elif isinstance(d, Fill):
+        lemma_go_abfree_list(mw, smart, mnl, i, d.docs, w)
+    elif isinstance(d, Annotated):
+        lemma_go_abfree(mw, smart, mnl, i, d.doc, w)
+    elif isinstance(d, Nest):
+        lemma_go_abfree(mw, smart, mnl, i + d.indent, d.doc, w)
+    elif isinstance(d, Group):
+        lemma_go_abfree(mw, smart, mnl, i, d.doc, w)
+    elif isinstance(d, FlatChoice):
+        lemma_go_abfree(mw, smart, mnl, i, d._when_flat, w)
+
+
+@C.lemma(_WQ + [('ds', 'ObjList'), ('w', 'Int')],
+         ensures=['implies(walklist(mw, smart, mnl, i, FLAT_MODE, ds, w).status is GO, not reach_ab_list(ds))'],
+         triggers=['walklist(mw, smart, mnl, i, FLAT_MODE, ds, w)'], decreases=['rank(ds)'], group='goab')
+def lemma_go_abfree_list(mw, smart, mnl, i, ds, w):
+    if not ds:
+        return
+    lemma_go_abfree(mw, smart, mnl, i, ds[0], w)
+    lemma_go_abfree_list(mw, smart, mnl, i, ds[1:], walk(mw, smart, mnl, i, FLAT_MODE, ds[0], w).w)
+
+
+@C.lemma([('stack', 'Stack'), ('i', 'Int'), ('m', 'Mode'), ('ds', 'ObjList')],
+         ensures=['implies(flatok_stack(stack) and (m is BREAK_MODE or not reach_ab_list(ds)), '
+                  'flatok_stack(push_rev(stack, i, m, ds)))'],
+         triggers=['push_rev(stack, i, m, ds)'], decreases=['len(ds)'])
+def lemma_push_rev_flatok(stack, i, m, ds):
+    if not ds:
+        return
+    lemma_push_rev_flatok(stack, i, m, ds[1:])
+
+
 # ------------------------------------------------------------------------------------------------
 # contracts: best_layout against den
 
@@ -418,7 +508,8 @@ for _key, _raw in ((DOCTYPES + ':normalize_doc', 'doc'), (DOCTYPES + ':FlatChoic
                    (DOCTYPES + ':FlatChoice.when_broken', 'self._when_broken')):
     _c = C.fns[_key]
     from pvf.pyvc.contract import Clause as _Clause
-    _c.ensures.append(_Clause('den', _DEN_ALL % _raw))
+    _c.ensures.append(_Clause('den', 'implies(flatok(m_, %s), %s)' % (_raw, _DEN_ALL % _raw)))
+    _c.ensures.append(_Clause('flatok', 'implies(flatok(m_, %s), flatok(m_, result))' % _raw))
     _c.ensures.append(_Clause('hlsafe', 'implies(hlsafe(%s), hlsafe(result))' % _raw))
     _c.forall.update(_Q_DEN)
 
@@ -438,12 +529,13 @@ C.contract(
     params={'doc': 'Obj', 'width': 'Int', 'ribbon_frac': 'Float', 'fitting_predicate': 'fn', 'outcol': 'Int', 'mode': 'Mode'},
     fnparams={'fitting_predicate': 'fitting_predicate'},
     yields='Out', locals_={'triplestack': 'Stack'},
-    requires=['width == PW', 'RW == max(0, min(PW, round(ribbon_frac * PW)))', 'wf(doc)', 'hlsafe(doc)'],
+    requires=['width == PW', 'RW == max(0, min(PW, round(ribbon_frac * PW)))', 'wf(doc)', 'hlsafe(doc)', 'flatok(mode, doc)'],
     ghost={'ok': ('Bool', 'True'), 'k': ('Int', '0')},
     ensures=[('den', 'implies(ok, result == %s.out)' % _FINAL)],
     loops={0: dict(
         inv=[('wf', 'wf_stack(triplestack)'),
              ('hlsafe', 'hlsafe_stack(triplestack)'),
+             ('flatok', 'flatok_stack(triplestack)'),
              ('rw', 'ribbon_width == RW'),
              ('den', 'implies(ok, dens(triplestack, St(__out__, outcol, k)) == %s)' % _FINAL)],
         decreases=['stack_size(triplestack)'],
